@@ -16,6 +16,7 @@ package main
 
 import (
 	"bytes"
+	"encoding/base64"
 	"encoding/json"
 	"encoding/xml"
 	"errors"
@@ -1431,6 +1432,15 @@ func (t *XT) coqHVal() (string, bool) {
 			return "", false
 		}
 		return "HLnk " + CoqStr(t.S) + " (" + p + ")", true
+	case "file":
+		// base64 and the byteSize text are Go's (oracle strings for the model)
+		us, unit := len(t.Data), 0
+		units := []string{"Bytes", "kBytes", "MBytes", "GBytes", "TBytes"}
+		for us > 10000 && unit < len(units)-1 {
+			unit++
+			us = us / 1024
+		}
+		return fmt.Sprintf("HFile %s %s %s %s", CoqStr(t.S), CoqStr(t.Mime), CoqStr(base64.StdEncoding.EncodeToString(t.Data)), CoqStr(strconv.Itoa(us)+" "+units[unit])), true
 	}
 	return "", false
 }
